@@ -58,7 +58,41 @@ let attrs_handle ts =
   let es = many element in
   match List.sort compare (List.map acode_name (check_attributes es)) with [] -> "ok" | l -> String.concat " " l
 
+(* scoped NFILES file.. NKEYS key..     (Sema/Scoped.v: the lookup table and the redefinition pass over several files)
+   file = ID NMOD(or -1) name.. NDEFS def..;  def = S n K f.. | E n K (m J x..).. | I n K (m NP p.. NR r..).. | O n;  key = LEN name..
+   gives: the names reported (sorted) or "ok" | what each key leads to *)
+let scoped_handle ts =
+  let toks = ref ts in
+  let next () = match !toks with x :: r -> toks := r; x | [] -> failwith "scoped: end of input" in
+  let int () = int_of_string (next ()) in
+  let nat () = nat_of_int (int ()) in
+  let rec rep n f = if n <= 0 then [] else let x = f () in x :: rep (n - 1) f in
+  let names () = let n = int () in rep n nat in
+  let def () = match next () with
+    | "S" -> let n = nat () in ScStruct (n, names ())
+    | "E" -> let n = nat () in let k = int () in ScEnum (n, rep k (fun () -> let m = nat () in (m, names ())))
+    | "I" -> let n = nat () in let k = int () in
+      ScIface (n, rep k (fun () -> let m = nat () in let ps = names () in let rs = names () in { sco_name = m; sco_params = ps; sco_rets = rs }))
+    | "O" -> ScOther (nat ())
+    | _ -> failwith "scoped: definition" in
+  let file () =
+    let id = nat () in let nm = int () in let m = if nm < 0 then None else Some (rep nm nat) in
+    let nd = int () in { sf_id = id; sf_module = m; sf_defs = rep nd def } in
+  let nf = int () in
+  let fs = rep nf file in
+  let nk = int () in
+  let keys = rep nk names in
+  let dotted l = String.concat "." (List.map (fun n -> string_of_int (int_of_nat n)) l) in
+  let report = List.sort compare (List.map int_of_nat (redef_report fs)) in
+  let t = sc_table fs in
+  let look k = match sc_lookup k t with
+    | None -> "none"
+    | Some (ScModule m) -> "module " ^ dotted m
+    | Some (ScEntity (f, p)) -> Printf.sprintf "entity %d %s" (int_of_nat f) (dotted p) in
+  (if report = [] then "ok" else String.concat " " (List.map string_of_int report)) ^ " | " ^ String.concat " ; " (List.map look keys)
+
 let handle = function
+  | "scoped" :: ts -> scoped_handle ts
   | "val" :: n :: r ->
     let (p, _) = parse_n parse_def (int_of_string n) r [] in
     let codes = List.sort compare (List.map int_of_nat (check p)) in
